@@ -30,7 +30,7 @@ func childMain(args []string) {
 	sock := fs.String("sock", "", "")
 	id := fs.Int("id", 0, "")
 	x := fs.Int64("x", -1, "leave at t0 + x ms (-1: never)")
-	onint := fs.String("onint", "die", "die | ignore")
+	onint := fs.String("onint", "die", "die | ignore | quitonly (ignores SIGQUIT, dies of any other interrupt)")
 	status := fs.Int("status", 0, "own exit status")
 	fs.Parse(args)
 
@@ -70,7 +70,7 @@ func childMain(args []string) {
 		case s := <-ch:
 			stamped = true
 			stamp("sig", s.String())
-			if *onint == "die" {
+			if *onint == "die" || (*onint == "quitonly" && s != syscall.SIGQUIT) {
 				os.Exit(2)
 			}
 		case <-leave:
